@@ -93,6 +93,13 @@ class Mir:
             self.text[k] = open(p).read()
         self.cache = {}
 
+    def find_all(self, crate, pattern, sig=None):
+        """every function whose name matches `pattern` (and whose header matches `sig`)"""
+        ms = list(re.finditer(r'^fn (' + pattern + r')\((?:[^\n]*?)\) -> [^\n]*? \{\n.*?^\}\n', self.text[crate], re.S | re.M))
+        if sig is not None:
+            ms = [m for m in ms if re.search(sig, m.group(0).split('\n', 1)[0])]
+        return [Fn(m.group(1), m.group(0)) for m in ms]
+
     def find(self, crate, pattern, sig=None):
         key = (crate, pattern, sig)
         if key in self.cache:
@@ -449,7 +456,9 @@ class Interp:
         if m:
             return Enum('None')
         if o.startswith('const ZeroSized: {closure@'):
-            return Closure(re.fullmatch(r'const ZeroSized: \{closure@([^}]*)\}', o).group(1), [])
+            clo = Closure(re.fullmatch(r'const ZeroSized: \{closure@([^}]*)\}', o).group(1), [])
+            clo.parent = env.get('__fnobj__') if isinstance(env, dict) else None
+            return clo
         if o.startswith('const '):
             raise Untranslatable('constant ' + o)
         is_copy = False
@@ -576,7 +585,9 @@ class Interp:
                     raise Untranslatable('closure aggregate printed with fewer operands than captures')
                 ops.append('move ' + nxt)
             fields = [self.operand(env, x) for x in ops]
-            return Closure(m.group(1), fields)
+            clo = Closure(m.group(1), fields)
+            clo.parent = env.get('__fnobj__') if isinstance(env, dict) else None
+            return clo
         m = re.fullmatch(r'&raw (?:const|mut) (?:\(fake\) )?(.+)', rv)
         if m:
             g, s_ = self.parse_place(env, m.group(1))    # only used for PtrMetadata (bounds checks)
@@ -1054,17 +1065,28 @@ class Interp:
         if not isinstance(clo, Closure):
             raise Untranslatable('call of a non-closure value')
         cache = self.mir.cache.setdefault('__closures__', {})
-        if clo.loc not in cache:
+        parent = getattr(clo, 'parent', None)
+        key = (clo.loc, parent.text[:300] if parent is not None else None)
+        if key not in cache:
             pat = r'[^\n(]*\{closure#\d+\}'
-            cache[clo.loc] = None
+            cache[key] = None
             for crate in self.mir.text:
-                mm = re.search(r'^fn (' + pat + r')\(_1: &?(?:mut )?\{closure@' + re.escape(clo.loc) + r'\}', self.mir.text[crate], re.M)
-                if mm:
-                    cache[clo.loc] = self.mir.find(crate, re.escape(mm.group(1)))
-                    break
-        if cache[clo.loc] is None:
+                text = self.mir.text[crate]
+                ms = list(re.finditer(r'^fn (' + pat + r')\(_1: &?(?:mut )?\{closure@' + re.escape(clo.loc) + r'\}[^\n]*\{\n.*?^\}\n', text, re.S | re.M))
+                if not ms:
+                    continue
+                if len(ms) > 1:
+                    # macro instantiations share a source location: the closure printed right after its parent is the one
+                    pos = text.find(parent.text) if parent is not None else -1
+                    after = [m_ for m_ in ms if m_.start() > pos] if pos >= 0 else []
+                    if not after:
+                        raise Untranslatable('ambiguous closure body for ' + clo.loc)
+                    ms = [after[0]]
+                cache[key] = Fn(ms[0].group(1), ms[0].group(0))
+                break
+        if cache[key] is None:
             raise Untranslatable('closure body not found for ' + clo.loc)
-        return self.call_fn(cache[clo.loc], [Ref(lambda: clo)] + args, pc, depth + 1)
+        return self.call_fn(cache[key], [Ref(lambda: clo)] + args, pc, depth + 1)
 
     def drain(self, it, pc, depth, stop_on_err=False):
         """all (path condition, [items], first_error) outcomes of exhausting iterator `it`"""
